@@ -204,14 +204,28 @@ func switchTable(key string) [][2]string {
 		}
 		for _, c := range sw.Body.List {
 			cc := c.(*ast.CaseClause)
+			if cc.List == nil {
+				continue // `default:` (the fallback text is read elsewhere)
+			}
 			if len(cc.Body) != 1 {
 				die("%s: unsupported case body", key)
 			}
-			as, ok := cc.Body[0].(*ast.AssignStmt)
-			if !ok || len(as.Rhs) != 1 {
+			// `t = "..."` or `return "..."`
+			var val ast.Expr
+			switch st := cc.Body[0].(type) {
+			case *ast.AssignStmt:
+				if len(st.Rhs) == 1 {
+					val = st.Rhs[0]
+				}
+			case *ast.ReturnStmt:
+				if len(st.Results) == 1 {
+					val = st.Results[0]
+				}
+			}
+			if val == nil {
 				die("%s: unsupported case body", key)
 			}
-			lit, ok := as.Rhs[0].(*ast.BasicLit)
+			lit, ok := val.(*ast.BasicLit)
 			if !ok || lit.Kind != token.STRING {
 				die("%s: case value is not a string literal", key)
 			}
